@@ -72,7 +72,7 @@ def case(g, tier, ci):
         return ops + observe("bp", "a", "b", SR)
     sg = SeqGen(g)
     if which == "el":
-        chans = r.sample([1, 2, 3, 7, 12], r.randint(1, 3))
+        chans = r.sample([1, 2, 3, 7, 12, -1, 0], r.randint(1, 3))
         N = r.randint(6, 30)
         ops = sg.element("a", SR, N, chans, raw_p=0.0, kinds=KINDS, flags_p=0.6, nseg=(1, 4))
         spice(g, ops)
@@ -84,7 +84,7 @@ def case(g, tier, ci):
             ops += [{"op": r.choice(["el.SR", "el.points", "el.duration"]), "id": "a"}]
         return ops + observe("el", "a", "b")
     ops, info = sg.sequence("a", npos=(1, 3), nch=(1, 3), SR=SR, raw_p=0.0, kinds=KINDS, flags_p=0.4, delays_p=0.5,
-                            filters_p=0.5, sub_p=0.0, seq_p=0.0, waits=0.2, amp=r.choice([20, 30.5]), chan_pool=[1, 2, 3, 4, 11],
+                            filters_p=0.5, sub_p=0.0, seq_p=0.0, waits=0.2, amp=r.choice([20, 30.5]), chan_pool=[1, 2, 3, 4, 11, -2, 10],
                             offsets=True)
     P = info["P"]
     for p in range(1, P + 1):
